@@ -465,6 +465,10 @@ def compare(pid, scen, model, cfg, max_fail=5):
             # where the model's answer was verified against the spec on this very input, a
             # difference from the model is a difference from the rules: a property failure
             kind = "property" if (tag in cfg.get("spec_tags", ()) and not spec_bang) else "tie"
+            # an abort of the implementation where the model (which models every abort of the code
+            # explicitly) answers normally is a concrete failure of a property that forbids aborts
+            if tag in cfg.get("panic_tags", ()) and ri["obs"] is not None and "PANIC" in ri["obs"] and rm["obs"] is not None and "PANIC" not in rm["obs"]:
+                kind = "property"
             fails.append(Failure(kind, pid, "on `%s` the implementation answers [%s], the %s prescribes [%s]" % (
                 ri["op"], ri["obs"], "rules/model" if kind == "property" else "model", rm["obs"]), episode_prefix(irecs, i), ri["obs"], rm["obs"]))
         if len(samples) < 3 and ri["obs"] and len(ri["obs"]) < 400 and ri["op"].split(" ")[0] in cfg.get("sample_tags", ()):
